@@ -318,6 +318,16 @@ def explore(ctx):
                 else:
                     desc.setdefault("lib", {})["public.skipExportGlyphs"] = list(skipped)
                 ctx.klass("sem:non-exported component")
+        if i % 5 == 3:
+            # options that choose HOW something optional would be done must not switch it on: a backend for overlap removal
+            # (overlap removal itself not requested, or explicitly declined)
+            kw["overlapsBackend"] = ["booleanOperations", "pathops"][(i // 5) % 2]
+            if (i // 10) % 2:
+                kw["removeOverlaps"] = False
+            ctx.klass("sem:overlapsBackend named, removeOverlaps off")
+        elif i % 5 == 4 and kw["optimizeCFF"] == 2:
+            kw["subroutinizer"] = ["cffsubr", "compreffor"][(i // 5) % 2] if kw["cffVersion"] == 1 else "cffsubr"
+            ctx.klass("sem:subroutinizer named")
         case = {"font": jsonable(desc), "lib": lib, "options": kw, "level": "compileOTF"}
         try:
             tt = ufo2ft.compileOTF(build_font(desc, lib), **kw)
